@@ -211,6 +211,21 @@ func genC18(r *Rng, e *Emitter, n int) {
 			if err != nil {
 				return "(err other)"
 			}
+			// the document must still be one the library's own decoder reads, with the same parts
+			var g2, gp geom.T
+			if err := geojson.Unmarshal(b, &g2); err != nil {
+				// (judged against the plain encoding: a MultiPoint of EMPTY members only reads back
+				// under neither)
+				if bp, err := geojson.Marshal(g); err != nil || geojson.Unmarshal(bp, &gp) != nil {
+					return "(ok " + hex.EncodeToString(b) + ")"
+				}
+				return "(undecodable " + hex.EncodeToString(b) + ")"
+			}
+			_, isGC := g.(*geom.GeometryCollection)
+			_, isGC2 := g2.(*geom.GeometryCollection)
+			if !isGC && !isGC2 && fmt.Sprint(g2.Ends(), g2.Endss()) != fmt.Sprint(g.Ends(), g.Endss()) && g.Layout() != geom.XYM {
+				return "(parts-changed " + hex.EncodeToString(b) + ")"
+			}
 			return "(ok " + hex.EncodeToString(b) + ")"
 		}))
 	}
